@@ -265,3 +265,31 @@ func VerifC03FailureIdent(c *Cache, hash uint64) (FailureQuestionKey, bool) {
 	}
 	return e.question, true
 }
+
+// VerifC03CutExpire moves the expiry of the cut stored for (deniedName, qclass)
+// into the past: the state stays in both maps until a lookup meets it.
+func VerifC03CutExpire(s *Store, deniedName string, qclass uint16) bool {
+	c := s.nxDomainCuts
+	c.mu.Lock()
+	defer c.mu.Unlock()
+	e := c.entries[nxDomainCutID{deniedName: dns.CanonicalName(deniedName), qclass: qclass}]
+	if e == nil {
+		return false
+	}
+	e.expires = time.Now().Add(-time.Second)
+	return true
+}
+
+// VerifC03FailureExpire ends the backoff of every failure state tagged id:
+// the state is retained as history, it is no longer a cache hit.
+func VerifC03FailureExpire(c *Cache, id string) int {
+	n := 0
+	c.failure.entries.ForEach(func(_ uint64, v any) bool {
+		if e, ok := v.(*failureEntry); ok && e != nil && string(e.provenance) == id {
+			e.retryAfter = c.failure.now().Add(-time.Second)
+			n++
+		}
+		return true
+	})
+	return n
+}
